@@ -534,7 +534,14 @@ class Parser:
     def parse_document(self) -> Document:
         """Parse a complete OCTAVE document."""
         doc = Document()
+        start_pos = self.pos
         self.skip_whitespace()
+        at_meta = self.current().type == TokenType.IDENTIFIER and self.current().value == "META"
+        if self.current().type not in (TokenType.GRAMMAR_SENTINEL, TokenType.ENVELOPE_START) and not at_meta:
+            # Issue #182: no sentinel, envelope or META block follows, so comments before the
+            # first section are its leading comments - leave them for the body loop
+            self.pos = start_pos
+            self.skip_whitespace(skip_comments=False)
 
         # Issue #48 Phase 2: Check for grammar sentinel OCTAVE::VERSION
         # The lexer now produces a GRAMMAR_SENTINEL token for this pattern
